@@ -330,22 +330,70 @@ def _form_pos(x, form, idt=0):
     raise HarnessError('pos form %r' % (form,))
 
 
-def _form_box(am, V, o, form):
+# Cell vectors and origin in another STORAGE dtype (forms['box'] = 'f32' | 'f16' | 'int'): a cell read from a single-precision
+# binary file, half-precision ML data, whole-number vectors as an integer array (dtype forms['idt'] of INT_DTYPES).  The cell of
+# such a case IS the rounded one (_box_in_dtype: every number handed over is exactly representable in that dtype), so nothing is
+# lost in the hand-over and Box (documented: array-like, stored as float64) must behave exactly as for the float64 array of the
+# same values.  Where rounding would degrade the cell (a zero row, overflow / underflow at the case's length scale, handedness
+# changed, conditioning worse than 4x / above 1e3) the case falls back to the float64 array.
+BOX_DTYPE_FORMS = ('f32', 'f16', 'int')
+
+
+def _box_in_dtype(V, o, form, idt):
+    """-> (V', o', dtype) with V', o' float64 arrays exactly representable in dtype, or None (fall back to float64)"""
+    if form == 'int':
+        dt = np.dtype(INT_DTYPES[int(idt) % len(INT_DTYPES)])
+        if dt.kind == 'b':
+            dt = np.dtype('int16')
+        Vr, orr = np.rint(V) + 0.0, np.rint(o) + 0.0
+        with np.errstate(all='ignore'):
+            if not (np.array_equal(Vr.astype(dt).astype(float), Vr) and np.array_equal(orr.astype(dt).astype(float), orr)):
+                dt = np.dtype('int64')
+                if not (np.abs(Vr).max() < 2.0 ** 62 and np.abs(orr).max() < 2.0 ** 62):
+                    return None
+    else:
+        dt = np.dtype(np.float32 if form == 'f32' else np.float16)
+        with np.errstate(all='ignore'):
+            Vr, orr = V.astype(dt).astype(float) + 0.0, o.astype(dt).astype(float) + 0.0
+    if not (np.all(np.isfinite(Vr)) and np.all(np.isfinite(orr)) and np.all(np.abs(Vr).max(axis=1) > 0)):
+        return None
+    d0, d1 = float(np.linalg.det(V)), float(np.linalg.det(Vr))
+    if not (d1 != 0.0 and (d0 > 0) == (d1 > 0)):
+        return None
+    c1 = float(np.linalg.cond(Vr))
+    if not (c1 <= 1e3 and c1 <= 4 * float(np.linalg.cond(V))):
+        return None
+    if float(np.abs(Vr - V).max()) > 0.5 * float(np.abs(V).max()):
+        return None
+    return Vr, orr, dt
+
+
+def _form_box(am, V, o, form, keep=None, dt=None):
+    """keep: list collecting the writeable ndarrays handed to atomman (the caller's arrays, see "caller side")"""
+    def kept(a):
+        if keep is not None and isinstance(a, np.ndarray) and a.flags.writeable:
+            keep.append(a)
+        return a
     if form == 'array':
-        return am.Box(vects=V.copy(), origin=o.copy())
+        return am.Box(vects=kept(V.copy()), origin=kept(o.copy()))
+    if form in BOX_DTYPE_FORMS:
+        Vd, od = V.astype(dt), o.astype(dt)
+        if not (np.array_equal(Vd.astype(float), V) and np.array_equal(od.astype(float), o)):
+            raise HarnessError('cell not representable in %s' % dt)
+        return am.Box(vects=kept(Vd), origin=kept(od))
     if form == 'list':
         return am.Box(vects=V.tolist(), origin=o.tolist())
     if form == 'tuple':
         return am.Box(vects=tuple(tuple(r) for r in V.tolist()), origin=tuple(o.tolist()))
     if form == 'fortran':
-        return am.Box(vects=np.asfortranarray(V), origin=o.copy())
+        return am.Box(vects=kept(np.asfortranarray(V)), origin=kept(o.copy()))
     if form == 'readonly':
         Vr, orr = V.copy(), o.copy()
         Vr.flags.writeable = False
         orr.flags.writeable = False
         return am.Box(vects=Vr, origin=orr)
     if form == 'avects':
-        return am.Box(avect=V[0].copy(), bvect=V[1].tolist(), cvect=V[2].copy(), origin=o.copy())
+        return am.Box(avect=kept(V[0].copy()), bvect=V[1].tolist(), cvect=kept(V[2].copy()), origin=kept(o.copy()))
     raise HarnessError('box form %r' % (form,))
 
 
@@ -363,6 +411,8 @@ def _form_pbc(pbc, form):
         return [int(p) for p in pbc], None
     if form == 'int_array':
         return np.array([int(p) for p in pbc], dtype=np.int64), None
+    if form in ('int8_array', 'uint8_array'):
+        return np.array([int(p) for p in pbc], dtype=np.int8 if form == 'int8_array' else np.uint8), None
     if form == 'npbool':
         return [np.bool_(p) for p in pbc], None
     if form == 'strided':
@@ -382,9 +432,17 @@ def build_system(am, case, pbc, exact=False):
     forms = dict(_DEFAULT_FORMS, **(case.get('forms') or {}))
     V, o = cell_vects5(c), gens.cell_origin(c)
     L = case_scale(case)
+    idt = int(forms.get('idt') or 0) % len(INT_DTYPES)
+    bdt = None
+    if forms['box'] in BOX_DTYPE_FORMS:
+        r = _box_in_dtype(V, o, forms['box'], idt)
+        if r is None:
+            forms['box'] = 'array'
+        else:
+            V, o, bdt = r                 # the cell of the case is the one representable in that dtype
+            forms['box_dtype'] = bdt
     s = np.array(case['rel'], dtype=float)
     x = s @ V + o
-    idt = int(forms.get('idt') or 0) % len(INT_DTYPES)
     if forms['pos'] == 'float32':
         # only where no rounding can occur (see the note at INT_DTYPES): exact clause, numbers with at most 20 significant bits
         # before the call (the call only subtracts whole cell vectors, which keeps the binary grid and shrinks the magnitude)
@@ -405,7 +463,15 @@ def build_system(am, case, pbc, exact=False):
     n = len(s)
     props = prop_values(n, case['nprops'])
     scaled = bool(forms['scaled']) and forms['pos'] not in ('int_array', 'int_list', 'float32')
-    atoms = am.Atoms(atype=atypes(n), pos=_form_pos(s if scaled else x, forms['pos'], idt), **{k: v.copy() for k, v in props.items()})
+    # the caller's own arrays (everything handed to atomman as a writeable ndarray): see "caller side" below
+    handed_in = []
+    pos_obj = _form_pos(s if scaled else x, forms['pos'], idt)
+    at_obj = atypes(n)
+    prop_objs = {k: v.copy() for k, v in props.items()}
+    for a in [pos_obj, at_obj] + list(prop_objs.values()):
+        if isinstance(a, np.ndarray) and a.flags.writeable:
+            handed_in.append(a)
+    atoms = am.Atoms(atype=at_obj, pos=pos_obj, **prop_objs)
     symbols = ('Al', 'Cu', 'Ni') if case.get('symbols') else None
     kw = {} if symbols is None else {'symbols': symbols}
     if scaled:
@@ -413,7 +479,7 @@ def build_system(am, case, pbc, exact=False):
     if forms['safecopy']:
         kw['safecopy'] = True
     pbc_obj, handed = _form_pbc(pbc, forms['pbc'])
-    system = am.System(atoms=atoms, box=_form_box(am, V, o, forms['box']), pbc=pbc_obj, **kw)
+    system = am.System(atoms=atoms, box=_form_box(am, V, o, forms['box'], keep=handed_in, dt=bdt), pbc=pbc_obj, **kw)
     if scaled:
         # atomman computed the Cartesian positions itself: they are the input of everything that follows
         x_am = np.array(system.atoms.pos, dtype=float)
@@ -428,7 +494,8 @@ def build_system(am, case, pbc, exact=False):
            'lh_flip': False,                    # the history reversed an odd number of cell vectors
            'int_stored': np.asarray(system.atoms.view['pos']).dtype.kind in 'iub',
            'pos_dtype': str(np.asarray(system.atoms.view['pos']).dtype),
-           'forms': forms, 'scaled': scaled, 'L': L}
+           'forms': forms, 'scaled': scaled, 'L': L,
+           'handed_in': [(a, np.array(a, copy=True)) for a in handed_in]}     # (the caller's array, its value at hand-over)
     return system, V, o, s, x, props, ctx
 
 
@@ -670,6 +737,11 @@ def form_labels(ctx, labels):
         labels.add('pos_scaled_ctor')
     if f['box'] != 'array':
         labels.add('box_form')
+    if f.get('box_dtype') is not None:
+        labels.add('box_dtype')                   # cell vectors / origin handed over as float32 / float16 / integer array
+        labels.add('box_' + f['box'])
+    if f['pbc'] in ('int8_array', 'uint8_array'):
+        labels.add('pbc_int8')
     if f['pbc'] != 'list':
         labels.add('pbc_form')
     if f['pos'] != 'float' or ctx['scaled'] or f['box'] != 'array' or f['pbc'] != 'list' or f['safecopy']:
